@@ -106,6 +106,33 @@ def rules(case, res):
                 S.request(q, "get", {})
                 S.settle()
                 S.sig("rules-after-removals", len(victims[:6]))
+                # elements come and go while case-insensitive subscriptions are active: a removed element's successor has another
+                # path of the SAME length (its strings are likely to land where the old ones were); every evaluation is fresh
+                cirules = [dict(r, caseInsensitive=True) for r in rules_[:40] if len(json.dumps(r)) <= 300][:3]
+                cirules.append({"contains": "urn", "caseInsensitive": True})
+                for k, r in enumerate(cirules):
+                    S.request(q, "fetch", {"id": "ci%d" % k, "path": r})
+                S.settle()
+                for rnd in range(prm.get("churn", 10)):
+                    n = rng.choice([5, 8, 16, 24, 31, 32, 40, 48, 64, 100])
+                    fam = []
+                    for v in range(3):
+                        body_ = "".join(rng.choice("abABzZ/urnURN") for _ in range(n))
+                        fam.append(body_)
+                    for x in fam:
+                        if x in S.elements:
+                            continue
+                        S.request(own, "add", {"path": x, "value": rnd})
+                        if rng.random() < 0.5:
+                            S.settle()
+                        if rng.random() < 0.3:
+                            S.request(q, "get", {"path": rng.choice(cirules)})
+                        S.request(own, "remove", {"path": x})
+                        if rng.random() < 0.5:
+                            S.settle()
+                    S.settle()
+                    S.stats["churn_rounds"] += 1
+                S.sig("churn-under-case-insensitive-fetches", len(cirules))
         else:   # ill-formed rules and repeated option keys
             bad = []
             for m in MATCHERS:
